@@ -65,7 +65,7 @@ func normParam(raw string) string {
 }
 
 func checkC36(r *ev.Run) {
-	nScripts := r.N(6, 120)
+	nScripts := r.N(12, 120)
 	r.Rule("script = bootstrap + one block per parameter key: for EVERY key present in the access-control list read from the chain's own state after feature activation (exhaustive over the key list), change-param transactions by {the ACL owner of that key, the owner of a different key only, an unrelated funded account} in PRNG order with a type-valid new value derived from the stored JSON (risky keys re-submit the stored value), then DAO transfers/burns by owner and non-owner with amounts below, equal to and above the DAO balance, and upgrade messages by owner/non-owner. Per-tx pre/post snapshots. Oracle: non-owner => params store digest (and DAO/recipient balances) unchanged, only the fee moves; owner + valid value => that key's stored value equals the submitted one and no other params entry changed; DAO transfer/burn by owner <= balance moves exactly the amount out of the DAO account (to the recipient / out of the supply), > balance moves nothing. Non-trivial = distinct (key or action, signer relation, outcome).")
 	// pass 1: learn the key list and stored values from the real chain at the end of the bootstrap
 	boot := newTxPlan(chain.DefaultGen(5, 2, 11))
